@@ -306,7 +306,7 @@ CONDITIONS = [
     {'fn': 'alias2_reach', 'slices': [_slice2_for('nest_path', 0, 1)],
      'quick': 100, 'thorough': 100, 'expect': 'REFUTED',
      'bound': 'reachability twin: [&a [&b x, *b], *a]'},
-    {'fn': 'alias', 'slices': ALL, 'quick_slices': QUICKS, 'quick': 110,
+    {'fn': 'alias', 'slices': ALL, 'quick_slices': QUICKS, 'quick': 240,
      'thorough': 900,
      'bound': 'one slice per (model, base document, i mod 3): every ordered '
               'pair (i, j) of nodes with i not an ancestor of j; node i '
